@@ -297,7 +297,8 @@ void pbt_run(const Case& cs, Ctx& ctx) {
       bool rec = (op.a[2] & D_FLAG) != 0;
       Walk w = walk(path);
       if (w.escapes || w.crossesLink) { ctx.count("skipped_leaves_tree"); continue; }
-      if (w.finalIsLink && (op.a[2] & D_SLASH)) { ctx.count("skipped_link_with_slash"); continue; }  // "link/" denotes the directory outside
+      // "link/": Linux refuses rmdir on a symbolic link even with a trailing separator (ENOTDIR), so nothing may happen either
+      if (w.finalIsLink && (op.a[2] & D_SLASH)) ctx.label("unlink_link_with_slash");
       std::vector<std::string> sub;
       if (w.fin == F_DIR) for (auto& e : before) if (e.first.compare(0, w.norm.size() + 1, w.norm + "/") == 0) sub.push_back(e.first);
       bool want = w.fin == F_DIR && !w.blockedPrefix && (sub.empty() || rec);
